@@ -13,6 +13,8 @@ from ropt.plan import OptimizerContext, Plan
 from ropt.plugins import PluginManager
 from ropt.results import FunctionResults, GradientResults
 
+from pathlib import Path
+
 from ..core import PropertyCheck
 from ..ropt_util import outcome_of
 from ..transforms_util import make_transforms
@@ -40,6 +42,8 @@ def catalogue():
     c = _copy(base); c["samplers"] = [{"method": "uniform", "options": {"loc": -0.5, "scale": 1.0}}]
     out.append(c)
     c = _copy(base); c["samplers"] = [{"method": "norm"}, {"method": "lhs", "shared": True}]; c["gradient"]["samplers"] = [0, 1, 0]
+    out.append(c)
+    c = _copy(base); c["samplers"] = [{"method": "sobol"}, {"method": "halton"}, {"method": "lhs"}]; c["gradient"]["samplers"] = [2, 0, 1]
     out.append(c)
     c = _copy(base); c["variables"]["mask"] = [True, False, True]; c["samplers"] = [{"method": "sobol"}]
     out.append(c)
@@ -168,6 +172,22 @@ def run_once(cfg, seed, reuse, label):
     return h.hexdigest(), hp.hexdigest(), state["pert"] and not seedfree, outcome
 
 
+def run_in_child(index, seed, plugged, salt):
+    """The same target run in a fresh interpreter process with another string-hash salt."""
+    import json as _json
+    import os
+    import subprocess
+    import sys
+    env = dict(os.environ, PYTHONHASHSEED=str(salt))
+    code = ("import json,sys; from rv.drivers import c16; c16.STATE['plugged']=%r; "
+            "print('RVCHILD'+json.dumps(c16.run_once(c16.catalogue()[%d], %d, False, 'child')))" % (bool(plugged), index, seed))
+    out = subprocess.run([sys.executable, "-c", code], env=env, capture_output=True, text=True, timeout=600, cwd=str(Path(__file__).resolve().parents[2]))
+    for line in out.stdout.splitlines():
+        if line.startswith("RVCHILD"):
+            return tuple(_json.loads(line[7:]))
+    raise RuntimeError("child run failed: " + out.stderr[-2000:])
+
+
 def drive(sc):
     global CATALOGUE
     if CATALOGUE is None:
@@ -175,7 +195,9 @@ def drive(sc):
     ops = sc["ops"]
     base = zlib.crc32(str(ops).encode()) % len(CATALOGUE)
     cfgs = {1: CATALOGUE[base], 2: CATALOGUE[(base + 1) % len(CATALOGUE)]}
+    index = {1: base, 2: (base + 1) % len(CATALOGUE)}
     reuse = False
+    child = 0
     raw = []
     STATE["plugged"] = False
     if SHARED["plugged"]:              # a manager plugged by an earlier scenario of this process is not re-used
@@ -187,6 +209,8 @@ def drive(sc):
             np.random.random()
         elif op["op"] == "reuse":
             reuse = not reuse
+        elif op["op"] == "proc":
+            child = 0 if child else 1 + sum(1 for o in ops[:ops.index(op) + 1] if o["op"] == "proc")
         elif op["op"] == "plug":
             STATE["plugged"] = True
             if SHARED["pm"] is not None and not SHARED["plugged"]:
@@ -195,7 +219,10 @@ def drive(sc):
         elif op["op"] == "other":
             run_once(cfgs[op["a"]], 99, reuse, "other")
         else:
-            t, p, hasp, outcome = run_once(cfgs[op["a"]], op["b"], reuse, "target")
+            if child:
+                t, p, hasp, outcome = run_in_child(index[op["a"]], op["b"], STATE["plugged"], 100 + child)
+            else:
+                t, p, hasp, outcome = run_once(cfgs[op["a"]], op["b"], reuse, "target")
             raw.append((op["a"], op["b"], t, p, hasp, outcome, STATE["plugged"]))
     ids = {}
     trace = []
@@ -210,7 +237,8 @@ def drive(sc):
 def model_runs(tier):
     runs = [{"module": "MC_C16", "constants": {"L": 3 if tier == "quick" else 4}},
             {"module": "MC_C16", "constants": {"L": 3, "UsesGlobal": "TRUE", "Emit": "FALSE"}, "emit": False, "expect_violation": "Reproducible"},
-            {"module": "MC_C16", "constants": {"L": 3, "UsesHistory": "TRUE", "Emit": "FALSE"}, "emit": False, "expect_violation": "Reproducible"}]
+            {"module": "MC_C16", "constants": {"L": 3, "UsesHistory": "TRUE", "Emit": "FALSE"}, "emit": False, "expect_violation": "Reproducible"},
+            {"module": "MC_C16", "constants": {"L": 3, "UsesProcess": "TRUE", "Emit": "FALSE"}, "emit": False, "expect_violation": "Reproducible"}]
     return runs
 
 
@@ -225,6 +253,11 @@ def extra_scenarios(tier, seed):
         # a re-used manager that has already resolved the method names, then a prioritised plug-in, then fresh managers
         out.append({"ops": [{"op": "reuse", "a": 0, "b": 0}, {"op": "target", "a": 1, "b": 1}, {"op": "plug", "a": 0, "b": 0},
                             {"op": "target", "a": 1, "b": 1}, {"op": "reuse", "a": 0, "b": 0}, {"op": "target", "a": 1, "b": 1},
+                            {"op": "target", "a": 1, "b": 2}], "force_base": k})
+    # the same run in this process and in two other interpreter processes (different string-hash salts)
+    for k in range(n):
+        out.append({"ops": [{"op": "target", "a": 1, "b": 1}, {"op": "proc", "a": 0, "b": 0}, {"op": "target", "a": 1, "b": 1},
+                            {"op": "proc", "a": 0, "b": 0}, {"op": "proc", "a": 0, "b": 0}, {"op": "target", "a": 1, "b": 1},
                             {"op": "target", "a": 1, "b": 2}], "force_base": k})
     return out
 
